@@ -131,6 +131,8 @@ def replay(cex):
         except Exception as e:
             return True, '%s test with injected random numbers %r raised %r (rates %r counts %r)' % (cex['which'], cex['rn'], e, cex['rates'], cex['counts'])
         return False, 'no exception'
+    if k == 'quant':
+        return _replay_quant(cex)
     if k == 'count':
         return False, 'count clause is decided on the symbolic run only'
     raise ValueError(k)
@@ -208,6 +210,8 @@ def jobs(tier, seed):
         out.append({'name': 'poisson weights invariant FP64 n=8 (8 symbolic)', 'kind': 'wfp', 'n': 8, 'nsym': 8, 'asserts': False, 'cost': 100})
     for t in ('L', 'CL', 'S', 'M'):
         out.append({'name': 'poisson %s-test counts and quantile' % t, 'kind': 'count', 'test': t, 'cost': 30})
+    for which in ('poisson', 'binary', 'brier'):
+        out.append({'name': '%s quantile over free statistics' % which, 'kind': 'quant', 'which': which, 'cost': 10})
     for fn in SEED_FNS:
         out.append({'name': 'seed handling %s' % fn, 'kind': 'seed', 'fn': fn, 'cost': 2})
     for which in ('binary', 'brier'):
@@ -697,3 +701,85 @@ def _job_inject(job):
                           ('unknown' if trunc else 'sat'), note='%d ok paths' % n_ok))
     obs = [o for o in obs if not (o.status == 'sat' and o.cex is None)]
     return {'obligations': [o.as_dict() for o in obs], 'samples': [{'which': which, 'simulations': 2, 'paths': len(paths)}]}
+
+
+QUANT = {'poisson': ('csep.core.poisson_evaluations', '_poisson_likelihood_test', 'poisson_joint_log_likelihood_ndarray'),
+         'binary': ('csep.core.binomial_evaluations', '_binary_likelihood_test', 'binary_joint_log_likelihood_ndarray'),
+         'brier': ('csep.core.brier_evaluations', '_brier_score_test', '_brier_score_ndarray')}
+
+
+def _job_quant(job):
+    """the quantile reported by the simulation kernels is the fraction of simulated statistics not exceeding the observed one, for
+    ARBITRARY statistic values: the scoring function is replaced by an opaque function returning free reals (assume-guarantee:
+    the scores themselves are C05 / C16), so ties and near-ties between simulated and observed statistics are all covered"""
+    core.MODE['float'] = 'xr'
+    core.OPT['lazy_bounds'] = True
+    which = job['which']
+    modname, fn, score = QUANT[which]
+    L = C.twin()
+    mod_ = L.load(modname)
+    nsim = 3
+
+    def opaque(*a, **k):
+        v = z3.Real(core.fresh_name('score'))
+        core.CTX.notes.setdefault('scores', []).append(v)
+        return XR(v)
+    setattr(mod_, score, opaque)
+    rates = np.array([[0.5], [1.5]])
+    counts = np.array([[1.0], [0.0]])
+
+    def run():
+        core.CTX.notes.setdefault('random', {'seed_calls': [], 'draws': []}).update({'poisson_max': 1, 'max_draws': 12})
+        fd = symnp.asarray(rates)
+        od = symnp.asarray(counts)
+        if which == 'poisson':
+            return mod_._poisson_likelihood_test(fd, od, num_simulations=nsim, seed=None, verbose=False)
+        return getattr(mod_, fn)(fd, od, num_simulations=nsim, seed=None, verbose=False)
+    paths, trunc = core.explore(run, max_paths=3000)
+
+    def cexf(mod, P):
+        return {'kind': 'quant', 'which': which, 'scores': [float(core.real_from_model(mod, v)) for v in P.notes.get('scores', [])], 'nsim': nsim}
+
+    def vio(P):
+        qs, obs_v, sims = P.value
+        o = core.R(obs_v).v
+        sl = [core.R(x).v for x in (sims.a.reshape(-1) if isinstance(sims, symnp.SArr) else sims)]
+        cnt = z3.Sum([z3.If(x <= o, 1, 0) for x in sl])
+        q = core.R(qs)
+        return z3.Or(z3.BoolVal(len(sl) != nsim), z3.Not(q.fin()), q.v * nsim != z3.ToReal(cnt))
+    obs = C.path_obligations(paths, vio, cexf, replay, '%s: quantile = #{simulated <= observed} / n for arbitrary statistic values' % which, 60)
+    obs = _agg(obs, paths, trunc)
+    okp = [P for P in paths if P.kind == 'ok']
+    if okp:
+        def chk(mod):
+            bad, d = replay(cexf(mod, okp[0]))
+            return (not bad), d
+        obs.append(C.reach_obligation(okp[0], chk))
+    return {'obligations': [o.as_dict() for o in obs], 'samples': [{'kernel': fn, 'simulations': nsim, 'statistics': 'free reals', 'paths': len(paths)}]}
+
+
+def _replay_quant(cex):
+    from unittest import mock
+    C.real_csep()
+    import importlib
+    modname, fn, score = QUANT[cex['which']]
+    m = importlib.import_module(modname)
+    vals = list(cex['scores'])
+    it = iter(vals)
+
+    def fake(*a, **k):
+        try:
+            return np.float64(next(it))
+        except StopIteration:
+            return np.float64(0.0)
+    rates = np.array([[0.5], [1.5]])
+    counts = np.array([[1.0], [0.0]])
+    with mock.patch.object(m, score, fake), np.errstate(all='ignore'):
+        try:
+            qs, o, sims = getattr(m, fn)(rates, counts, num_simulations=cex['nsim'], seed=1, verbose=False)
+        except Exception as e:
+            return True, '%s raised %r' % (fn, e)
+    sims = [float(x) for x in np.asarray(sims, dtype=float).ravel()]
+    want = sum(1 for x in sims if x <= float(o)) / cex['nsim']
+    bad = abs(float(qs) - want) > 1e-12
+    return bad, '%s: quantile %r for simulated statistics %r and observed %r; #{sim <= obs}/n = %r' % (fn, float(qs), sims, float(o), want)
